@@ -682,6 +682,74 @@ func runHostileHandshakes(w *svw, rng *rand.Rand) {
 	})
 }
 
+// a connected peer receives base-protocol messages from the remote (disconnect with every reason value, ping, pong, unknown
+// base codes, garbage payloads) while the server's own per-peer goroutine (Server.runPeer) is running it
+func runPeerBaseMessages(w *svw, rng *rand.Rand) {
+	type bcase struct {
+		kind    string
+		code    uint64
+		payload []byte
+	}
+	enc := func(v interface{}) []byte {
+		b, err := rlp.EncodeToBytes(v)
+		if err != nil {
+			panic(err)
+		}
+		return b
+	}
+	cases := []bcase{}
+	for _, r := range []uint64{0, 1, 2, 3, 4, 5, 6, 7, 8, 9, 10, 11, 12, 13, 14, 15, 16, 17, 18, 19, 32, 255, 256, 1 << 31, 1 << 32, 1<<63 - 1, 1 << 63, 1<<64 - 1} {
+		cases = append(cases, bcase{fmt.Sprintf("disc-%d", r), discMsg, enc([]uint64{r})})
+	}
+	cases = append(cases, bcase{"disc-empty", discMsg, []byte{}}, bcase{"disc-emptylist", discMsg, []byte{0xc0}}, bcase{"disc-string", discMsg, []byte{0x83, 1, 2, 3}},
+		bcase{"disc-two", discMsg, enc([]uint64{3, 4})}, bcase{"disc-garbage", discMsg, []byte{0xff, 0xff, 0xff}},
+		bcase{"ping", pingMsg, []byte{0xc0}}, bcase{"pong", pongMsg, []byte{0xc0}}, bcase{"ping-garbage", pingMsg, []byte{0xff}},
+		bcase{"handshake-again", handshakeMsg, []byte{0xc0}}, bcase{"base-4", 4, []byte{0xc0}}, bcase{"base-15", 15, []byte{0xc0}},
+		bcase{"unknown-proto-code", 16, []byte{0xc0}}, bcase{"code-huge", 1 << 40, []byte{0xc0}})
+	for _, c := range cases {
+		fd1, fd2 := net.Pipe()
+		c1 := &conn{fd: fd1, transport: newTestTransport(randomID(), fd1)}
+		c2 := &conn{fd: fd2, transport: newTestTransport(randomID(), fd2)}
+		peer := newPeer(c1, nil)
+		srv := &Server{delpeer: make(chan peerDrop, 1)}
+		done := make(chan string, 1)
+		go func() {
+			pn := ""
+			defer func() {
+				if r := recover(); r != nil {
+					pn = fmt.Sprint(r)
+				}
+				done <- pn
+			}()
+			srv.runPeer(peer)
+		}()
+		go io.Copy(ioutil.Discard, fd2) // whatever the peer writes (pings, disconnect reason)
+		go c2.WriteMsg(Msg{Code: c.code, Size: uint32(len(c.payload)), Payload: bytes.NewReader(c.payload)})
+		pn, outcome := "", "returned"
+		select {
+		case pn = <-done:
+			if pn != "" {
+				outcome = "panic"
+			}
+		case <-time.After(2 * time.Second):
+			// nothing made the peer stop (ping, pong, ignored codes): that is fine, close from the remote side
+			outcome = "running"
+			fd2.Close()
+			select {
+			case pn = <-done:
+				if pn != "" {
+					outcome = "panic"
+				}
+			case <-time.After(10 * time.Minute):
+				outcome = "wedge"
+			}
+		}
+		fd1.Close()
+		fd2.Close()
+		w.emit(map[string]interface{}{"e": "peermsg", "kind": c.kind, "outcome": outcome, "panic": pn, "err": pn})
+	}
+}
+
 func min(a, b int) int {
 	if a < b {
 		return a
@@ -770,6 +838,7 @@ func TestVerifSession(t *testing.T) {
 	}
 	runHostileFrames(w, rng, thorough)
 	runHostileHandshakes(w, rng)
+	runPeerBaseMessages(w, rng)
 	fmt.Printf("VERIF-STAT events=%d sessions=%d\n", w.n, idx)
 }
 
